@@ -8,6 +8,7 @@
    NOT proved (validated on every run by checks/C15.py): that CaDiCaL's answers are valid. *)
 From Crusta Require Import Sat.Cnf Sat.Dimacs Sat.Dpll Model.SatObjects Model.SatSpec.
 From Crusta Require Import Proofs.DpllProofs Proofs.SatObjProofs.
+From Crusta Require Proofs.Clauses2.
 Import ListNotations.
 
 (* ---------------------------------------------------------------- the reference solver *)
@@ -87,6 +88,46 @@ Example C15_example :
   = [None; None; Some true; None; Some false; Some true; None].
 Proof. vm_compute. repeat split; reflexivity. Qed.
 
+(* ---- the contract of ONE solve call, spelled out (Proofs/Clauses2.v): in a history
+   [pre ++ OSolve a :: post] the observation of that call (position [length pre]) is
+   - a model that satisfies every clause added BEFORE the call ([clauses_of pre]) and every assumption
+     OF the call ([units a]) and has one entry per variable declared so far (it can be queried for
+     every declared variable), or
+   - Unsat, and then no assignment at all satisfies them, or
+   - Unknown; never a panic.
+   For BufferedSatSolver over any correct solving function, and for CadicalSolver's wrapper over the
+   reference solver. *)
+Theorem C15_buffered_each_solve_call : forall fn pre a post,
+  solver_correct fn -> hist_ok (pre ++ OSolve a :: post) = true -> small (pre ++ OSolve a :: post) ->
+  exists ob, nth_error (snd (run_obj (buf_step fn) buf_new (pre ++ OSolve a :: post))) (length pre) = Some ob /\
+    match ob with
+    | ObsAns (Sat m) => models m (clauses_of pre ++ units a) = true /\ length m = hist_nvars (pre ++ [OSolve a])
+    | ObsAns Unsat => forall m, models m (clauses_of pre ++ units a) = false
+    | ObsAns Unknown => True
+    | _ => False
+    end.
+Proof. exact Clauses2.buffered_each_solve_call. Qed.
+
+Theorem C15_cadical_each_solve_call : forall pre a post,
+  hist_ok (pre ++ OSolve a :: post) = true ->
+  exists ob, nth_error (snd (run_obj (cad_step dpll_backend) cad_new (pre ++ OSolve a :: post))) (length pre) = Some ob /\
+    match ob with
+    | ObsAns (Sat m) => models m (clauses_of pre ++ units a) = true /\ length m = hist_nvars (pre ++ [OSolve a])
+    | ObsAns Unsat => forall m, models m (clauses_of pre ++ units a) = false
+    | ObsAns Unknown => True
+    | _ => False
+    end.
+Proof. exact Clauses2.cadical_each_solve_call. Qed.
+
+(* "assumptions hold for one call only, clauses added between calls are taken into account": the formula
+   [query done b] of a call with assumptions b after the history [done] contains every clause added
+   anywhere before it, and is the same formula with or without an earlier solve call (whatever its
+   assumptions a) *)
+Theorem C15_clauses_kept_assumptions_dropped : forall pre mid c a b,
+  In c (query (pre ++ OAdd c :: mid) b) /\
+  query (pre ++ OSolve a :: mid) b = query (pre ++ mid) b.
+Proof. exact Clauses2.query_formula. Qed.
+
 Print Assumptions C15_dpll_sound.
 Print Assumptions C15_dpll_complete.
 Print Assumptions C15_cadical_wrapper_solve.
@@ -96,3 +137,6 @@ Print Assumptions C15_vdpll_correct.
 Print Assumptions C15_assumptions_not_retained.
 Print Assumptions C15_cadical_dpll_contract.
 Print Assumptions C15_same_verdicts.
+Print Assumptions C15_buffered_each_solve_call.
+Print Assumptions C15_cadical_each_solve_call.
+Print Assumptions C15_clauses_kept_assumptions_dropped.
